@@ -59,7 +59,7 @@ def op_task(u, tt, pp, op, ar, ext, tight=False, prop="C11", timeout=900, bounde
         pre = ""; post = "C_classify_POSTS(r, x, nan, inf, sign)"; reach = [("sign asked", "sign"), ("nothing asked", "!nan && !inf && !sign")]
     elif ar in ("PRED1", "PRED1B"):
         vars = [Var(tu, "x")]; args = "&x"; proto = "const T_u*"; rt = "uint32_t" if ar == "PRED1" else "_Bool"
-        pre = "PRE(operands, C_%s_PRE(x, 0, 0))" % name; post = "C_%s_POSTS(r, 0, 0, x, 0, 0, 0)" % name; reach = [("answer nonzero", "r != 0")]
+        pre = "PRE(operands, C_%s_PRE(x, 0, 0))" % name; post = "C_%s_POSTS(r, 0, 0, x, 0, 0, 0)" % name; reach = [("answer nonzero", "r != 0")] if not (pp in ("cop", "bic") and op in ("is_nan", "is_minf", "is_pinf")) else []
     elif ar in ("PRED2", "PRED2B"):
         vars = [Var(tu, "x"), Var(tu, "y")]; args = "&x, &y"; proto = "const T_u*, const T_u*"; rt = "uint32_t" if ar == "PRED2" else "_Bool"
         pre = "PRE(operands, C_%s_PRE(x, y, 0))" % name; post = "C_%s_POSTS(r, 0, 0, x, y, 0, 0)" % name; reach = [("answer nonzero", "r != 0"), ("answer zero or other", "r != 1")]
